@@ -315,6 +315,18 @@ func (dm *DMap) putOnCluster(e *env) error {
 		}
 	}
 
+	if e.putConfig.OnlyUpdateTTL {
+		// The backups receive the complete entry, load the current value.
+		current, err := f.storage.Get(e.hkey)
+		if errors.Is(err, storage.ErrKeyNotFound) {
+			err = ErrKeyNotFound
+		}
+		if err != nil {
+			return err
+		}
+		e.value = current.Value()
+	}
+
 	nt := dm.prepareEntry(e)
 	if dm.s.config.ReplicaCount > config.MinimumReplicaCount {
 		switch dm.s.config.ReplicationMode {
